@@ -62,6 +62,7 @@ static void prod_cases(Ctx &cx, bool roundtrip) {
 }
 
 void run_C01(Ctx &cx) {
+  cx.ambient = true;
   if (cx.args.s("sub") == "prod") { prod_cases(cx, true); return; }
   const size_t c = VH_CHUNK;
   const size_t nmax = 5 * c + 17;
@@ -153,6 +154,7 @@ static const char *field_of(size_t off, int hmode, int T, size_t chunk, std::str
 }
 
 void run_C02(Ctx &cx) {
+  cx.ambient = true;
   if (cx.args.s("sub") == "prod") { prod_cases(cx, false); return; }
   const size_t c = VH_CHUNK;
   const size_t nmax = cx.thorough ? 5 * c + 17 : 4 * c + 17;
